@@ -6,6 +6,7 @@
 From Coq Require Import Strings.String Strings.Byte.
 From Coq Require Import List NArith.
 From Goit Require Import Bytes Sha1 Obj Tree Index BytesFacts ObjFacts IndexFacts.
+From Goit Require Import Sha1 Refs Tree Commit Reflog Config ConfigFacts ReflogFacts RegexFacts Regex GoRegex World Repo DecoderFacts.
 Import ListNotations.
 
 (* T1: whatever bytes sit in an object file, GetObject returns an object only
@@ -37,8 +38,88 @@ Theorem C19_oversize_header_rejected : forall k d,
   (2 ^ 63 <= lenN d)%N -> parse_payload (payload k d) = None.
 Proof. exact payload_too_big. Qed.
 
+(* ---------- Part 2: what the decoders accept, and the commands built on them ---------- *)
+(* a file stored under a name that is not the SHA-1 of its bytes is never returned *)
+Theorem C19_wrong_name_never_returned : forall st id p,
+  st_lookup st id = Some p -> sha1 p <> id -> get_obj st id = None.
+Proof. exact get_obj_wrong_name. Qed.
+
+(* two different ids never answer with the same file *)
+Theorem C19_names_distinct : forall st id1 id2 kd1 kd2,
+  get_obj st id1 = Some kd1 -> get_obj st id2 = Some kd2 -> st_lookup st id1 = st_lookup st id2 -> id1 = id2.
+Proof. exact get_obj_names_distinct. Qed.
+
+(* a truncated or extended object file does not load, whatever its name *)
+Theorem C19_truncated_rejected : forall k d n,
+  (n < length d)%nat -> parse_payload (header k (lenN d) ++ firstn n d) = None.
+Proof. exact payload_truncated_rejected. Qed.
+
+Theorem C19_extended_rejected : forall k d x, x <> [] -> parse_payload (payload k d ++ x) = None.
+Proof. exact payload_extended_rejected. Qed.
+
+Theorem C19_resized_rejected : forall h d d' kd,
+  ~ In c_nul h -> parse_payload (h ++ c_nul :: d) = Some kd -> length d' <> length d ->
+  parse_payload (h ++ c_nul :: d') = None.
+Proof. exact payload_resized_rejected. Qed.
+
+(* whatever a tree object holds, an accepted walk yields 20-byte ids and
+   NUL-free names at every depth, and is no deeper than its fuel *)
+Theorem C19_tree_walk_sound : forall fuel st data ns,
+  walk_tree fuel st data = Some ns -> Forall node_ok ns /\ (forest_depth ns <= fuel)%nat.
+Proof. exact walk_tree_sound. Qed.
+
+(* an accepted id text is hex, at least 40 digits long, and decodes to itself *)
+Theorem C19_read_hash_sound : forall s id,
+  read_hash s = Some id ->
+  unhex s = Some id /\ hexsub 40 s /\ length s = (2 * length id)%nat /\ hex id = map lower s /\ (20 <= length id)%nat.
+Proof. exact read_hash_sound. Qed.
+
+(* an accepted HEAD names what follows its last '/' *)
+Theorem C19_head_sound : forall raw n,
+  parse_head raw = Some n ->
+  re_search re_headRegexp raw = true /\ ~ In c_slash n /\ exists a, raw = a ++ c_slash :: n.
+Proof. exact parse_head_sound. Qed.
+
+(* an accepted journal: every record comes from a line of the file, ids are
+   absent or real, and a position beyond the records is answered None — never
+   an out-of-range access *)
+Theorem C19_reflog_sound : forall b rs,
+  parse_reflog b = Some rs ->
+  Forall (fun r => match r_id r with Some h => (20 <= length h)%nat /\ h <> zero_id | None => True end) rs /\
+  Forall (fun r => exists l, In l (scan_lines b) /\ parse_log_line l = Some (Some r)) rs /\
+  (length rs <= length (scan_lines b))%nat.
+Proof. exact parse_reflog_sound. Qed.
+
+Theorem C19_reflog_position_beyond : forall rs n, (length rs <= n)%nat -> get_record rs n = None.
+Proof. exact get_record_beyond. Qed.
+
+(* an accepted config file is well formed (non-empty section names, keys and
+   values without line break or TAB) *)
+Theorem C19_config_sound : forall b c, cfg_load b = Some c -> wf_cfg c.
+Proof. exact cfg_load_sound. Qed.
+
+(* the reading commands (status, log, reflog, ls-files, cat-file, rev-parse,
+   hash-object, branch --list) on ANY world — arbitrary bytes in the object
+   store, any staging area, any journal text, any configuration — end without a
+   panic and change nothing: the world is the same and the trace is empty *)
+Theorem C19_reading_commands_total_and_read_only : forall e c w,
+  read_only c = true -> exists out, step (ACmd e c) w = (w, out, []) /\ out <> OPanic.
+Proof. exact read_only_commands_are_read_only. Qed.
+
 Print Assumptions C19_get_integrity.
 Print Assumptions C19_index_count_bounded.
 Print Assumptions C19_index_decoded_wf.
 Print Assumptions C19_index_decode_stable.
 Print Assumptions C19_oversize_header_rejected.
+Print Assumptions C19_wrong_name_never_returned.
+Print Assumptions C19_names_distinct.
+Print Assumptions C19_truncated_rejected.
+Print Assumptions C19_extended_rejected.
+Print Assumptions C19_resized_rejected.
+Print Assumptions C19_tree_walk_sound.
+Print Assumptions C19_read_hash_sound.
+Print Assumptions C19_head_sound.
+Print Assumptions C19_reflog_sound.
+Print Assumptions C19_reflog_position_beyond.
+Print Assumptions C19_config_sound.
+Print Assumptions C19_reading_commands_total_and_read_only.
